@@ -159,7 +159,31 @@ BAD_STATUS = [(b"HTTP/1.1 abc OK", True), (b"HTTP/1.1 99 Low", True), (b"HTTP/1.
               (b"HTTP/1.1 \xb2\xb2\xb2 OK", True), (b"HTTP/1.1 200 \xe9\xff\x00", False), (b"HTTP/ 200 OK", False),
               (b"HTTP/1.x 200 OK", False), (b"HTTP/0.9 200 OK", False), (b"HTTP/1.1 200 " + b"R" * 3000, False),
               (b" ", True), (b"\x00", True), (b"http/1.1 200 ok", True), (b"HTTP/1.1 1e2 OK", True), (b"HTTP/1.1 0200 OK", False),
-              (b"HTTP/1.1\xa0200\xa0OK", False), (b"HTTP/1.1 200\x85OK", False), (b"HTTP/3 200", False), (b"HTTP/1.1 999 Max", False)]
+              (b"HTTP/1.1\xa0200\xa0OK", False), (b"HTTP/1.1 200\x85OK", False), (b"HTTP/3 200", False), (b"HTTP/1.1 999 Max", False),
+              (b"HTTP/1.1 299", False), (b"HTTP/1.1 422 ", False), (b"HTTP/1.0 308", False), (b"HTTP/1.1 299 Custom Reason", False),
+              (b"HTTP/1.1 418 I'm a teapot", False), (b"HTTP/1.1 599 Network Timeout", False), (b"http/1.1 200 OK", True),
+              (b"HTTP/1.1 200\t", False), (b"HTTP/1.1 600", False), (b"HTTP/1.1 100 ", False)]
+# status lines without a reason phrase / with a reason the library has no table entry for: valid or near-valid, complete
+QUICK_CODES = [299, 308, 418, 422, 451, 599, 200, 404, 500, 226, 207, 102]
+STATUS_VARIANTS = ["bare", "space", "custom", "lower"]   # "HTTP/1.1 299" | "HTTP/1.1 299 " | "HTTP/1.1 299 Custom Reason" | "http/1.1 299 OK"
+
+
+def status_schedule(tier):
+    codes = QUICK_CODES if tier == "quick" else list(range(100, 600))
+    return [(c, v) for c in codes for v in (STATUS_VARIANTS[:2] if tier != "quick" else STATUS_VARIANTS)] + \
+           ([(c, v) for c in QUICK_CODES for v in STATUS_VARIANTS[2:]] if tier != "quick" else [])
+
+
+def gen_status_case(code, variant, http10):
+    """a COMPLETE response whose status line carries `code` and no / an unlisted reason phrase"""
+    ver = b"HTTP/1.0" if http10 else b"HTTP/1.1"
+    line = {"bare": ver + b" %d" % code, "space": ver + b" %d " % code, "custom": ver + b" %d Custom Reason" % code,
+            "lower": ver.lower() + b" %d OK" % code}[variant]
+    m = Msg(line, [b"Content-Length: 2"], b"ok")
+    return {"segs": [L(m.render())], "shape": ["statusline_sched", "status:" + variant], "reject": variant == "lower",
+            "control": False, "queued": variant != "lower" and not 100 <= code < 200}
+
+
 LOCATIONS = [None, b"", b"/rel", b"rel", b"?q=1", b"#f", b"http://127.0.0.1:@PORT@/ok", b"http://127.0.0.1:99999/",
              b"http://127.0.0.1:abc/", b"http://127.0.0.1:-5/", b"http://[::1/x", b"http://[zz]/", b"http://]/",
              b"//127.0.0.1:@PORT@/x", b"http://127.0.0.1:@PORT@", b"http://127.0.0.1:@PORT@/%zz?a=%zz&b",
